@@ -9,6 +9,7 @@ PACKS = {
     "C17": "contracts.c17_order",
     "C12": "contracts.c12_atom",
     "C13": "contracts.c13_deref",
+    "C11": "contracts.c11_bindings",
 }
 
 
